@@ -164,6 +164,8 @@ def run(db, rep, tier):
                                      "every other field keeps the value that was set", 25)
     rep.rule("R6-address-order", "IPv4/IPv6/hardware address setters store the octets in the order the address object holds them (network "
                                  "order): no byte swap between the address and the header", 10)
+    rep.rule("R7-selector-accessors", "set_X(selector, v) / get_X(selector): for every enumerator the getter returns the value set, the other "
+                                      "selectors keep theirs, and the whole-field getter shows the value at the enumerator's own bit", 8)
     small_uint(db, rep)
     pairs = discover(db)
     if len(pairs) < 300:
@@ -232,6 +234,10 @@ def run(db, rep, tier):
                 if kv is not None and op in (">", ">=") and all(b == ("p", i) for i, b in enumerate(lhs[:w])) \
                         and all(b == 0 for b in lhs[w:]):
                     lim = kv if op == ">" else kv - 1
+                    if 0 <= lim and ((lim + 1) & lim) != 0 and lim.bit_length() <= w:
+                        rep.violation("R2-no-truncation", key + ":threshold", site,
+                                      "the range check accepts 0..%d: not a whole number of bits - values up to %d fit the field but are "
+                                      "rejected (off-by-one threshold?)" % (lim, (1 << lim.bit_length()) - 1))
                     if 0 <= lim and lim.bit_length() < w:
                         w = lim.bit_length()
                         kind = "range-checked " + kind
@@ -356,6 +362,7 @@ def run(db, rep, tier):
                         rep.ok("R6-address-order", key, site, "the %d octets are stored as the address's network-order image" % (len(ref) // 8))
     serialiser_stores(db, rep)
     endian_arms(db, rep)
+    selector_accessors(db, rep)
     rep.extra["pairs"] = dict(stats)
     if stats.get("address-order checked", 0) < 10:
         rep.analysis_broken("only %d address-typed setters found for R6" % stats.get("address-order checked", 0))
@@ -603,3 +610,73 @@ def endian_arms(db, rep):
                               % (f["name"], lp[0][0], sorted(set(b for _, b in lp)), got[1][0][0], sorted(set(b for _, b in got[1]))))
     if n < 60:
         rep.analysis_broken("only %d bit-fields with two endian declarations compared" % n)
+
+
+def selector_accessors(db, rep):
+    """accessors that take the field as an enumerator: TCP::set_flag(Flags, v) / get_flag(Flags) / flags()"""
+    n = 0
+    for fid, s in sorted(db.functions.items()):
+        nm = s.get("qual", "").split("::")[-1]
+        if not nm.startswith("set_") or not s.get("body") or len(s["params"]) != 2 or not (s.get("rec") or "").startswith("Tins::"):
+            continue
+        et = facts.tyi(s, s["params"][0].get("t")) or {}
+        if et.get("k") != "enum":
+            continue
+        rec = s["rec"]
+        base = nm[4:]
+        gs = [g for g in db.fns_named(rec + "::get_" + base) if g.get("body") and len(g["params"]) == 1]
+        ws = [g for g in db.fns_named(rec + "::" + base + "s") if g.get("body") and not g["params"]]
+        en = db.enums.get(et.get("name"))
+        if not gs or en is None:
+            continue
+        g = gs[0]
+        vt = facts.tyi(s, s["params"][1].get("t")) or {}
+        for e in en["enumerators"]:
+            key = "%s::set_%s(%s)" % (rec.replace("Tins::", ""), base, e["name"])
+            site = facts.loc(s)
+            n += 1
+            try:
+                m = bp.Machine(db)
+                this = m.new_region("this", "m")
+                thisloc = bp.Loc(this, 0, {"k": "rec", "name": rec, "size": db.records[rec]["size"]})
+                a, w, decl, kind = param_setup(db, m, dict(s, params=[s["params"][1]]))
+                if a is None:
+                    raise bp.Unsupported("value parameter type")
+                sel = bp.BV.const(e["v"], et.get("w") or 32)
+                before = {}
+                for e2 in en["enumerators"]:
+                    before[e2["name"]] = tuple(result_bits(m, m.call(g, thisloc, [bp.BV.const(e2["v"], et.get("w") or 32)])))
+                m.call(s, thisloc, [sel, a])
+                got = result_bits(m, m.call(g, thisloc, [sel]))
+                bad = None
+                exp = [("p", i) if i < w else 0 for i in range(len(got))]
+                if list(got) != exp:
+                    i = next(j for j in range(len(got)) if got[j] != exp[j])
+                    bad = "get_%s(%s) after set_%s(%s, v): bit %d is %s, expected %s" % (base, e["name"], base, e["name"], i, bp.bit_str(got[i]), bp.bit_str(exp[i]))
+                if bad is None:
+                    for e2 in en["enumerators"]:
+                        if e2["v"] == e["v"]:
+                            continue
+                        after = tuple(result_bits(m, m.call(g, thisloc, [bp.BV.const(e2["v"], et.get("w") or 32)])))
+                        if after != before[e2["name"]]:
+                            bad = "set_%s(%s, v) changes what get_%s(%s) returns" % (base, e["name"], base, e2["name"])
+                            break
+                if bad is None and ws and w == 1 and e["v"] > 0 and (e["v"] & (e["v"] - 1)) == 0:
+                    whole = result_bits(m, m.call(ws[0], thisloc, []))
+                    b = e["v"].bit_length() - 1
+                    if b < len(whole) and whole[b] != ("p", 0):
+                        bad = ("after set_%s(%s, v) bit %d of %ss() - the bit the enumerator's value %d names - is %s, not v" %
+                               (base, e["name"], b, base, e["v"], bp.bit_str(whole[b])))
+                    elif any(isinstance(x, tuple) and x[0] == "p" for i, x in enumerate(whole) if i != b):
+                        bad = "after set_%s(%s, v) the value also shows in other bits of %ss()" % (base, e["name"], base)
+            except bp.Unsupported as ex:
+                rep.analysis_broken("%s: outside the E-BITS language: %s" % (key, ex))
+                continue
+            except bp.Throw:
+                bad = "the accessor throws for this enumerator"
+            if bad:
+                rep.violation("R7-selector-accessors", key, site, bad)
+            else:
+                rep.ok("R7-selector-accessors", key, site, "value returned, other selectors unchanged%s" % (", shown at its own bit of the whole field" if ws else ""))
+    if n < 8:
+        rep.analysis_broken("only %d selector accessor instances found (TCP::set_flag expected)" % n)
